@@ -394,6 +394,14 @@ pub fn run(ctx: &Ctx) -> Outcome {
             Some((class, why)) => ctx.violation(class, format!("[e2e-pieces-over-2MiB-1seeder] {}", &why[..why.len().min(500)]), json!({"scenario": "e2e-pieces-over-2MiB-1seeder", "history": []})),
         }
     }
+    // the Have path with a choice (borrowed from C12): record, reservation, request and completion
+    // must speak of the piece the manager chose, what is owned or announced must be stored
+    {
+        let (s, depth) = crate::c12::have_path_scenario(thorough);
+        let st = explore::bfs(ctx, &s, depth, ctx.tier.pick(50, 25));
+        per.push(json!({"scenario": Scenario::name(&s), "depth": depth, "states": st.states, "transitions": st.transitions, "depth_completed": st.depth_completed}));
+        total.merge(&st);
+    }
     // a storage fault: in a subprocess that may not write files longer than 20 000 bytes, storing a
     // 40 000-byte piece fails part-way; whatever is left behind must not count as stored
     {
@@ -433,6 +441,14 @@ pub fn run(ctx: &Ctx) -> Outcome {
 
 pub fn replay(_ctx: &Ctx, r: &Value) -> i32 {
     let name = r["scenario"].as_str().unwrap();
+    if name.starts_with("resv-") {
+        for thorough in [false, true] {
+            let (s, _) = crate::c12::have_path_scenario(thorough);
+            if Scenario::name(&s) == name {
+                return explore::replay_verbose(&s, &explore::hist_from_json(&r["history"]), "C01");
+            }
+        }
+    }
     if name == "knownaddr" {
         let dir = core::private_cwd("c01", "replay");
         return match crate::c11::known_address_dial_in_case(&dir) {
